@@ -87,9 +87,8 @@ class ACause(AObj):
 # T3 of DESIGN-tables: reviewed private-exception raise sites of the explanation path.
 T3 = {
     'errmain.get_func_pith_violation': 'parameter not in the annotations mapping: the wrapper only names annotated parameters',
-    'errmain._find_hint_object_violation_cause#neither': 'neither pith_name nor exception_prefix: caller contract of the two violation templates',
-    'errmain._find_hint_object_violation_cause#both': 'both passed: same contract',
-    'errmain._find_hint_object_violation_cause#desync': 'no cause found: the desynchronisation raise itself (what R1–R3 make unreachable)',
+    'errmain.<cause-entry>#contract': 'neither / both of pith_name and exception_prefix: caller contract of the two violation templates (at most two sites; behaviour decided by the interpreted caller-contract obligations)',
+    'errmain.<cause-entry>#desync': 'no cause found: the desynchronisation raise itself (what R1–R3 make unreachable)',
     'errnonpeptype.find_cause_type_instance_origin': 'hint without isinstanceable origin: dispatch sends only origin-isinstanceable signs here (R1)',
     'errpep593.find_cause_pep593_annotated': 'metadata item not a validator: the generator raises the public decoration-time exception first',
     'errpep484585container.find_cause_pep484585_container_args_1': 'no logic for sign (R2)',
@@ -293,6 +292,26 @@ def run(ctx):
              'in hinttreeerror are enumerated against the reviewed table (one reason each); a new site is reported')
     n = 0
     seen_sites = {}
+    LIMIT = {'errmain.<cause-entry>#contract': 2}
+
+    def keys_of(mn, m, fn, depth=0):
+        """Reviewed-site key(s) of a function: public functions by name; the private entry of the explanation path by
+        role (it instantiates HintTreeError); any other private helper is attributed to the functions that call it."""
+        short = mn.split('.')[-1]
+        if fn is None:
+            return [f'{short}.<module>']
+        if not fn.name.startswith('_') or qualname_of(fn) != fn.name:
+            return [f'{short}.{qualname_of(fn)}']
+        if any(isinstance(c, ast.Call) and dotted(c.func) == 'HintTreeError' for c in ast.walk(fn)):
+            return [f'{short}.<cause-entry>']
+        if depth >= 3:
+            return [f'{short}.{fn.name}']
+        out = []
+        for other in ast.walk(m.tree):
+            if isinstance(other, (ast.FunctionDef, ast.AsyncFunctionDef)) and other is not fn and any(
+                    isinstance(c, ast.Call) and dotted(c.func) == fn.name for c in ast.walk(other)):
+                out += keys_of(mn, m, other, depth + 1)
+        return sorted(set(out)) or [f'{short}.{fn.name}']
     for mn, m in sorted(ctx.repo.modules.items()):
         if not (mn.startswith('beartype._check.error') or mn.endswith('hinttreeerror')):
             continue
@@ -304,16 +323,15 @@ def run(ctx):
                     continue
                 n += 1
                 fn = enclosing_function(node)
-                key = f'{mn.split(".")[-1]}.{qualname_of(fn)}'
-                if key == 'errmain._find_hint_object_violation_cause':
-                    g = ' '.join(_guards(node, fn))
-                    tag = 'desync' if 'Desynchronization' in nm else ('both' if 'is not None' in g.split(' and ')[-1] else 'neither')
-                    key = f'{key}#{tag}'
-                seen_sites[key] = seen_sites.get(key, 0) + 1
-                ctx.ob('C03.R6', f'private-raise:{key}' + (f'#{seen_sites[key]}' if seen_sites[key] > 1 else ''), m.where(node),
-                       'private exception raise site on the explanation path is a reviewed one (one site per '
-                       'reviewed function and guard)', key in T3 and seen_sites[key] == 1,
-                       f'unreviewed raise of {nm} under `{" and ".join(_guards(node, fn))[:160]}`')
+                for key in keys_of(mn, m, fn):
+                    if key.endswith('.<cause-entry>'):
+                        key += '#desync' if 'Desynchronization' in nm else '#contract'
+                    seen_sites[key] = seen_sites.get(key, 0) + 1
+                    ctx.ob('C03.R6', f'private-raise:{key}' + (f'#{seen_sites[key]}' if seen_sites[key] > 1 else ''), m.where(node),
+                           'private exception raise site on the explanation path belongs to a reviewed function (reached '
+                           'directly or through private helpers) and is within the number of sites reviewed there',
+                           key in T3 and seen_sites[key] <= LIMIT.get(key, 1),
+                           f'unreviewed raise of {nm} in {qualname_of(fn) if fn else "<module>"} under `{" and ".join(_guards(node, fn))[:160]}`')
     ctx.floor('C03.R6', n, 8, 'private raise sites')
 
 
@@ -387,29 +405,8 @@ def _violation_selection(ctx, G, F):
              'conf.violation_{door,param,return}_type and the generated handler consults '
              '_is_violation_{door,param,return}_warn of the same kind; the handler is `raise V` or '
              '`warn(str(V), type(V))` followed by fall-through; culprits begin with the checked object')
-    # (a) errmain class selection
-    em = ctx.repo.mod('beartype._check.error.errmain')
-    fn = em.defs.get('_find_hint_object_violation_cause')
-    ctx.require(fn is not None, 'anchor vanished: _find_hint_object_violation_cause')
-    sel = {}
-    for a in walk_shallow(fn):
-        if isinstance(a, ast.Assign) and dotted(a.targets[0]) == 'exception_cls' and isinstance(a.value, ast.Attribute):
-            sel[a.value.attr] = ' and '.join(_guards(a, fn))
-    want = {
-        'violation_door_type': lambda g: 'pith_name is None' in g and 'not (pith_name is None)' not in g,
-        'violation_return_type': lambda g: 'not (pith_name is None)' in g and 'pith_name == ARG_NAME_RETURN' in g
-        and 'not (pith_name == ARG_NAME_RETURN)' not in g,
-        'violation_param_type': lambda g: 'not (pith_name is None)' in g and 'not (pith_name == ARG_NAME_RETURN)' in g,
-    }
-    for opt, pred in want.items():
-        g = sel.get(opt)
-        ctx.ob('C03.R4', f'class-selection:{opt}', em.where(fn),
-               f'conf.{opt} is selected exactly for its pith kind', g is not None and pred(g), f'guard: {g}')
-    cul = [a for a in walk_shallow(em.defs['get_hint_object_violation']) if isinstance(a, ast.Assign)
-           and dotted(a.targets[0]) == 'violation_culprits']
-    ok = len(cul) == 1 and isinstance(cul[0].value, ast.List) and cul[0].value.elts and dotted(cul[0].value.elts[0]) == 'obj'
-    ctx.ob('C03.R4', 'culprits-begin-with-object', em.where(cul[0]) if cul else em.where(fn),
-           'the culprits tuple begins with the checked object', ok, norm(cul[0]) if cul else 'not found')
+    # (a) the explanation entry point, interpreted
+    _explanation_entry(ctx, F)
     # (b) generated handlers, by interpreting the wrapper generator under the warn flags
     N = _wrap.names(ctx)
     W = _wrap.wrapgen(ctx)
@@ -478,3 +475,144 @@ def _violation_selection(ctx, G, F):
                'the violation comes from get_hint_object_violation',
                isinstance(gv, FuncVal) and gv.qualname == 'get_hint_object_violation', repr(gv))
     ctx.floor('C03.R4', n, 12, 'violation handler sites')
+
+
+def _explanation_entry(ctx, F):
+    """R4(a) by interpretation: get_hint_object_violation over {door, parameter, return} × {cause names the object
+    itself, cause names an item of it} × {cause found, no cause found} and the two caller-contract breaches."""
+    from sa.fold import Inst, Unknown, _WithValue
+    ERRMAIN = 'beartype._check.error.errmain'
+    em = ctx.repo.mod(ERRMAIN)
+    fn = F.const(ERRMAIN, 'get_hint_object_violation')
+    ctx.require(isinstance(fn, FuncVal), 'anchor vanished: get_hint_object_violation')
+    saved_stubs, saved_ext = dict(F.stubs), dict(F.ext_stubs)
+
+    class _Exc(AObj):
+        def __init__(self, cls, message, culprits):
+            self.cls, self.message, self.culprits = cls, message, culprits
+
+        def __repr__(self):
+            return f'{self.cls.name}({self.message!r}, culprits={self.culprits!r})'
+
+    class _ExcCls(AObj):
+        def __init__(self, name):
+            self.name = name
+
+        def __call__(self, *a, **k):
+            return _Exc(self, k.get('message', a[0] if a else None), k.get('culprits'))
+
+        def __repr__(self):
+            return self.name
+
+    class _Cause(AObj):
+        _track_attribute_stores = True
+
+        def __init__(self, **kw):
+            for k, v in kw.items():
+                setattr(self, k, v)
+
+    class _Tree(AObj):
+        def __init__(self, kw, text, pith):
+            self.kw, self.text, self.pith = kw, text, pith
+
+        def find_cause(self):
+            return _Cause(cause_str_or_none=self.text, pith=self.pith, exception_cls=self.kw.get('exception_cls'),
+                          exception_prefix=self.kw.get('exception_prefix'))
+
+    state = {}
+    F.stubs['beartype._check.cls.hint.tree.hinttreeerror.HintTreeError'] = \
+        lambda e, a, k: _Tree(k, state['text'], state['cause_pith'] if state['cause_pith'] is not None else k.get('pith'))
+    F.stubs['beartype._check.cls.hint.data.hintdataerror.HintDataError'] = lambda e, a, k: ('hint-data', a, tuple(k.items()))
+    F.stubs['beartype._check.convert.convmain.sanify_hint_any'] = lambda e, a, k: 'SANE'
+    F.stubs['beartype._util.error.utilerrwarn.warnings_ignored'] = lambda e, a, k: _WithValue(None)
+    F.stubs['beartype._util.text.utiltextprefix.prefix_pith_value'] = lambda e, a, k: '<pith> '
+    F.stubs['beartype._util.text.utiltextprefix.prefix_callable_return_value'] = lambda e, a, k: '<return of f> '
+    F.stubs['beartype._util.text.utiltextprefix.prefix_callable_arg_value'] = lambda e, a, k: f'<parameter {k.get("arg_name")} of f> '
+    F.stubs['beartype._util.text.utiltextrepr.represent_object'] = lambda e, a, k: '<repr>'
+    F.stubs['beartype._util.text.utiltextansi.color_hint'] = lambda e, a, k: k.get('text', a[0] if a else '')
+    F.stubs['beartype._util.text.utiltextansi.strip_str_ansi'] = lambda e, a, k: k.get('text', a[0] if a else '')
+    DOOR, PARAM, RET = _ExcCls('DoorViolation'), _ExcCls('ParamViolation'), _ExcCls('ReturnViolation')
+    verb_cls = F.const('beartype._conf.confenum', 'BeartypeViolationVerbosity')
+    other_conf = AConf()
+    old_default = F.patch_global(ERRMAIN, 'BEARTYPE_CONF_DEFAULT', other_conf)
+
+    class _Hint(AObj):
+        def __repr__(self):
+            return 'HINT[REPR]'
+
+    class _Call(AObj):
+        decoratee = 'f'
+
+    def bh_repr(name, args, kwargs):
+        if name == 'repr' and len(args) == 1 and isinstance(args[0], AObj):
+            return repr(args[0])
+        return saved_b(name, args, kwargs) if saved_b else NotImplemented
+    saved_b, saved_i = F.builtin_hook, F.isinstance_hook
+    F.builtin_hook = bh_repr
+    F.isinstance_hook = lambda o, c: True if isinstance(o, _Call) else (saved_i(o, c) if saved_i else None)
+    obj, item, hint = Inst('object', ('the checked object',)), Inst('object', ('an item of it',)), _Hint()
+    want_cls = {'door': DOOR, 'parameter': PARAM, 'return': RET}
+    RULE = 'C03.R4'
+    try:
+        for verb in ('MINIMAL', 'DEFAULT', 'MAXIMAL'):
+            vv = F.eval_in(ctx.repo.mod('beartype._conf.confenum'), ast.parse(f'BeartypeViolationVerbosity.{verb}', mode='eval').body)
+            conf = AConf(violation_door_type=DOOR, violation_param_type=PARAM, violation_return_type=RET,
+                         violation_verbosity=vv, is_color=False)
+            for kind, kw in (('door', {'exception_prefix': 'PREFIX '}), ('parameter', {'pith_name': 'x'}), ('return', {'pith_name': 'return'})):
+                for nested in (False, True):
+                    for found in (True, False):
+                        if not found and (verb != 'DEFAULT' or nested):
+                            continue
+                        state['text'] = 'the cause text' if found else None
+                        state['cause_pith'] = item if nested else None
+                        tag = f'{kind}:verbosity={verb}:culprit={"item" if nested else "object"}' + ('' if found else ':no-cause-found')
+                        try:
+                            out = _call_function(F, fn, [], dict(call_curr=_Call(), conf=conf, hint=hint, obj=obj, **kw), 1)
+                            raised = None
+                        except _Raise as ex:
+                            out, raised = None, ex
+                        except _Abort as ex:
+                            ctx.require(False, f'cannot interpret get_hint_object_violation: {ex}')
+                        if not found:
+                            ctx.ob('C03.R6', f'no-cause-found-is-an-internal-error:{kind}', em.where(fn.node),
+                                   'when the explanation path finds no cause (which R1–R3 make unreachable) it raises the '
+                                   'private desynchronisation exception rather than fabricating a violation',
+                                   raised is not None and 'Desynchronization' in str(raised.what), f'evaluates to {out!r} / raises {raised}')
+                            continue
+                        ok = isinstance(out, _Exc)
+                        ctx.ob(RULE, f'class-selection:{tag}', em.where(fn.node),
+                               f'the violation built for a {kind} check is an instance of conf.violation_{"param" if kind == "parameter" else kind}_type',
+                               ok and out.cls is want_cls[kind], f'evaluates to {out!r}' if raised is None else f'raises {raised}')
+                        if not ok:
+                            continue
+                        wantc = (obj, item) if nested else (obj,)
+                        ctx.ob(RULE, f'culprits-begin-with-object:{tag}', em.where(fn.node),
+                               'the culprits are the checked object, followed by the item the cause names when that is another object',
+                               isinstance(out.culprits, tuple) and len(out.culprits) == len(wantc) and all(
+                                   x is y for x, y in zip(out.culprits, wantc)), f'culprits={out.culprits!r}')
+                        msg = out.message if isinstance(out.message, str) else ''
+                        ctx.ob(RULE, f'message-names-the-hint:{tag}', em.where(fn.node),
+                               'the message contains the representation of the hint' + (
+                                   ' and the cause found' if verb != 'MINIMAL' else ''),
+                               'HINT[REPR]' in msg and (verb == 'MINIMAL' or 'the cause text' in msg), f'message={out.message!r}')
+        # caller contract: exactly one of pith_name / exception_prefix
+        conf = AConf(violation_door_type=DOOR, violation_param_type=PARAM, violation_return_type=RET,
+                     violation_verbosity=vv, is_color=False)
+        state['text'], state['cause_pith'] = 'the cause text', None
+        for tag, kw in (('neither', {}), ('both', {'pith_name': 'x', 'exception_prefix': 'PREFIX '})):
+            try:
+                out = _call_function(F, fn, [], dict(call_curr=_Call(), conf=conf, hint=hint, obj=obj, **kw), 1)
+                raised = None
+            except _Raise as ex:
+                out, raised = None, ex
+            except _Abort as ex:
+                ctx.require(False, f'cannot interpret get_hint_object_violation: {ex}')
+            ctx.ob('C03.R6', f'caller-contract:{tag}', em.where(fn.node),
+                   f'{tag} of pith_name / exception_prefix passed: a private exception is raised (the two generated '
+                   f'templates and the door pass exactly one)', raised is not None and '_BeartypeCallHintPepRaise' in str(raised.what),
+                   f'evaluates to {out!r} / raises {raised}')
+    finally:
+        F.builtin_hook, F.isinstance_hook = saved_b, saved_i
+        F.stubs.clear()
+        F.stubs.update(saved_stubs)
+        F.patch_global(ERRMAIN, 'BEARTYPE_CONF_DEFAULT', old_default)
